@@ -116,6 +116,32 @@ def run(tier):
             line = D.case_line('load', 'msgpack', t, cid, doc=bad.hex(), nodesc=1, **src)
             lines.append(line)
             meta[cid] = ('corrupt', t, None, bad, line, src)
+    # the never-used byte code 0xC1 at every position of small documents (found by the thorough tier inside skipped unknown members)
+    small = [d for d in docs if len(d[1]) <= 150][:80 if q else 3000]
+    for t, raw, exp in small:
+        for pos in range(len(raw)):
+            if raw[pos] == 0xc1:
+                continue
+            bad = raw[:pos] + b'\xc1' + raw[pos + 1:]
+            src = rng.choice(SRCS[:5])
+            cid = 'c%d' % k
+            k += 1
+            line = D.case_line('load', 'msgpack', t, cid, doc=bad.hex(), nodesc=1, **src)
+            lines.append(line)
+            meta[cid] = ('corrupt', t, None, bad, line, src)
+    # ... and as the value of an extra member that no target loads (the position where the thorough tier found it accepted)
+    nextra = 0
+    for t, raw, exp in docs:
+        if raw and 0x80 <= raw[0] <= 0x8e and nextra < (300 if q else 20000):
+            nextra += 1
+            for tail in (b'\xa2zz\xc1', b'\xa2zz\x91\xc1', b'\xa2zz\x81\xa1k\xc1'):
+                bad = bytes([raw[0] + 1]) + raw[1:] + tail
+                src = rng.choice(SRCS[:5])
+                cid = 'c%d' % k
+                k += 1
+                line = D.case_line('load', 'msgpack', t, cid, doc=bad.hex(), nodesc=1, **src)
+                lines.append(line)
+                meta[cid] = ('corrupt', t, None, bad, line, src)
     by, crashes = core.run_cases(exe, lines, 'asan')
     for ln, key, err, rc in crashes:
         cid = core._line_id(ln)
